@@ -55,6 +55,9 @@ pub fn use2<'a>(start: Span, input: Span<'a>) -> PResult<'a, Item> {
                     "Expected string.",
                     terminated(quoted_sass_string, ignore_comments),
                 ),
+                // The order sass defines is `as` before `with`;
+                // `with` before `as` is still accepted.
+                opt(preceded(terminated(tag("as"), ignore_comments), as_arg)),
                 opt(preceded(
                     terminated(tag("with"), ignore_comments),
                     with_arg,
@@ -64,7 +67,8 @@ pub fn use2<'a>(start: Span, input: Span<'a>) -> PResult<'a, Item> {
             ),
             semi_or_end,
         ),
-        |(s, w, n, end)| {
+        |(s, n1, w, n2, end)| {
+            let n = n1.or(n2);
             Item::Use(
                 s,
                 n.unwrap_or(UseAs::KeepName),
